@@ -84,6 +84,63 @@ def _cvc5_check(hyps, neg_goal, timeout_ms):
         return 'unknown'
 
 
+class _Abstractor:
+    """replace non-linear subterms (products of >= 2 non-constants, quotients by non-constants,
+    UF applications, powers) by fresh constants, consistently (z3 terms are hash-consed).  The
+    result is a *weakening*: `unsat` of the abstraction implies `unsat` of the original."""
+
+    def __init__(self):
+        self.memo = {}
+        self.vars = {}
+
+    def var(self, e):
+        k = e.get_id()
+        if k not in self.vars:
+            self.vars[k] = z3.Real("nl!%d" % len(self.vars))
+        return self.vars[k]
+
+    def ab(self, e):
+        k = e.get_id()
+        if k in self.memo:
+            return self.memo[k]
+        r = self._ab(e)
+        self.memo[k] = r
+        return r
+
+    def _ab(self, e):
+        if z3.is_rational_value(e) or z3.is_true(e) or z3.is_false(e):
+            return e
+        kind = e.decl().kind()
+        ch = e.children()
+        if kind == z3.Z3_OP_UNINTERPRETED:
+            return e if not ch else self.var(e)
+        if kind == z3.Z3_OP_MUL:
+            nc = [c for c in ch if not z3.is_rational_value(c)]
+            if len(nc) >= 2:
+                return self.var(e)
+        if kind == z3.Z3_OP_DIV:
+            if not z3.is_rational_value(ch[1]):
+                return self.var(e)
+        if kind == z3.Z3_OP_POWER:
+            return self.var(e)
+        nch = [self.ab(c) for c in ch]
+        return e.decl()(*nch) if nch else e
+
+
+def abstract_check(hyps, goal, timeout_ms=3000):
+    """linear abstraction pre-check; returns True when the abstraction is unsat"""
+    try:
+        ab = _Abstractor()
+        s = z3.Solver()
+        s.set("timeout", int(timeout_ms))
+        for h in hyps:
+            s.add(ab.ab(z3.simplify(h)))
+        s.add(z3.Not(ab.ab(z3.simplify(goal))))
+        return str(s.check()) == 'unsat'
+    except z3.Z3Exception:
+        return False
+
+
 def check(hyps, goal, timeout_ms=None, sample=None, use_cvc5=False, want_model=True):
     """Decide  hyps |= goal.  Returns (verdict, model, method) with verdict in
     {'unsat' (holds), 'sat' (counterexample), 'unknown'}."""
@@ -100,6 +157,14 @@ def check(hyps, goal, timeout_ms=None, sample=None, use_cvc5=False, want_model=T
                 STATS.samples.append({"obligation": sample, "method": "rewriter",
                                       "goal": _short(goal)})
             return 'unsat', None, 'rewriter'
+    STATS.queries += 1
+    if abstract_check(hyps, goal):
+        STATS.z3_unsat += 1
+        STATS.solver_s += time.time() - t0
+        if sample is not None and len(STATS.samples) < 6:
+            STATS.samples.append({"obligation": sample, "method": "z3 on the linear abstraction",
+                                  "goal": _short(goal), "n_hyps": len(hyps)})
+        return 'unsat', None, 'z3-abstract'
     s = z3.Solver()
     s.set("timeout", int(timeout_ms))
     for h in hyps:
